@@ -55,13 +55,16 @@ theorem C06_no_early_step (cur : Option Entry) (b rb : FBundle) (d : Bytes) (hd 
   · rename_i hx; exact (exactB_iff _ _).1 hx
   · simp at h
 
-/-- **C06_complete.** Let the history contain — in any order, with any duplicates, interleaved with
+/-- **C06_complete_partial.** (Full statement: `C06_complete_statement`; it fails on the excluded
+    region, see `C06_complete_counterexample`. Excluded region, as an explicit decidable hypothesis:
+    two distinct fragments of the bundle share an offset — `OffsetsDetermineLength`.)
+    Let the history contain — in any order, with any duplicates, interleaved with
     anything of other keys and with idle callbacks at any time — fragments of the bundle `k` that are
     consistent with the payload `P`, cover it, and of which no two distinct ones share an offset.
     Then exactly one bundle of key `k` has been delivered or awaits its idle callback; it is the
     bundle synthesised from the first offset-0 fragment: payload `P`, and all other blocks those of
     that fragment. -/
-theorem C06_complete (cfg : RCfg) (k : Key) (P : Bytes) (hist : List Ev)
+theorem C06_complete_partial (cfg : RCfg) (k : Key) (P : Bytes) (hist : List Ev)
     (hcons : ∀ b ∈ kfrags k hist, ConsFrag cfg k P b) (hoff : OffsetsDetermineLength k hist)
     (hne : kfrags k hist ≠ []) (hcov : covered ((kfrags k hist).map rangeOf) P.length) :
     ∃ f0, firstZero (kfrags k hist) = some f0 ∧
@@ -89,12 +92,12 @@ theorem C06_complete (cfg : RCfg) (k : Key) (P : Bytes) (hist : List Ev)
     · exact Or.inr ⟨h1, h2⟩
 
 /-- … hence, once the loop is quiescent, exactly one delivery. -/
-theorem C06_complete_quiescent (cfg : RCfg) (k : Key) (P : Bytes) (hist : List Ev)
+theorem C06_complete_partial_quiescent (cfg : RCfg) (k : Key) (P : Bytes) (hist : List Ev)
     (hcons : ∀ b ∈ kfrags k hist, ConsFrag cfg k P b) (hoff : OffsetsDetermineLength k hist)
     (hne : kfrags k hist ≠ []) (hcov : covered ((kfrags k hist).map rangeOf) P.length)
     (hq : (run cfg AState.init hist).pending = []) :
     ∃ R, deliveredOf k (run cfg AState.init hist) = [R] ∧ R.payload = some P := by
-  obtain ⟨f0, _, hp, _, h⟩ := C06_complete cfg k P hist hcons hoff hne hcov
+  obtain ⟨f0, _, hp, _, h⟩ := C06_complete_partial cfg k P hist hcons hoff hne hcov
   rcases h with ⟨h1, _⟩ | ⟨_, h2⟩
   · simp [pendingOf, hq] at h1
   · exact ⟨_, h2, hp⟩
@@ -156,7 +159,7 @@ def histOk : List Ev :=
   [.recv (mkFrag srcW 10 20), .recv (mkFrag (.dtn "//other/".toUTF8.toList) 0 30), .recv (mkFrag srcW 0 10),
    .recv (mkFrag srcW 10 20), .idle 0, .idle 0]
 
-/-- non-vacuity of `C06_complete` / `C06_no_early`: hypotheses hold, two bundles delivered, ours once -/
+/-- non-vacuity of `C06_complete_partial` / `C06_no_early`: hypotheses hold, two bundles delivered, ours once -/
 example : (∀ b ∈ kfrags kW histOk, ConsFrag cfgR kW PW b) ∧ OffsetsDetermineLength kW histOk ∧
     kfrags kW histOk ≠ [] ∧ covered ((kfrags kW histOk).map rangeOf) PW.length ∧
     (run cfgR AState.init histOk).delivered.length = 2 ∧
@@ -173,7 +176,7 @@ example : (∀ b ∈ kfrags kW histOk, ConsFrag cfgR kW PW b) ∧ OffsetsDetermi
   · unfold OffsetsDetermineLength; rw [hk]; decide +kernel
   · rw [hk]; exact (coveredB_iff _ _).1 (by decide +kernel)
 
-/-- **Full statement (does not hold).** `C06_complete` without the hypothesis that distinct fragments
+/-- **Full statement (does not hold).** `C06_complete_partial` without the hypothesis that distinct fragments
     never share an offset: "for any set of fragments that together cover the payload, overlapping
     allowed, in any order". -/
 def C06_complete_statement : Prop :=
